@@ -235,10 +235,10 @@ ENGINE_OF = {"C19": "matrix", "C18": "seq", "C17": "seq", "C20": "seq+sched", "C
 # what rounds 14-24 of the seeded-change calibration added to each check's alphabet / oracle (DESIGN.md sections 3 and 7)
 ADDED = {
     "C01": "one-token requests name no batch count (pooled-option defaults); a rule-check slot that writes a blocked verdict and then panics; two callers exiting ONE entry concurrently; a pass with a 90 s tick (long holds); queued entries under a throttling rule (response time includes the wait); an exit with a failing exit handler",
-    "C02": "reload of ALL rules of the resource in one load; a batch-0 request under threshold 0; clocks 3 / 103 ms after zero and half a bucket before bucket number 2^32; a permissive throttling rule in front of the reject rules",
+    "C02": "reload of ALL rules of the resource in one load; a batch-0 request under threshold 0; clocks 3 / 103 ms after zero and half a bucket before bucket number 2^32; a permissive throttling rule in front of the reject rules; a reload that changes only the RefResource of an associated rule",
     "C03": "off-round thresholds (0.25, 2.25 counts; ratio 0.25); configurations starting after one complete recovery round",
     "C04": "rules sharing one ID; the virtual clock at 0; the clock stepping back 10 ms",
-    "C05": "F6 a second rule in front; F7 a reload changing only a specific threshold; negative index with exactly |index| arguments",
+    "C05": "F6 a second rule in front; F7 a reload changing only a specific threshold; negative index with exactly |index| arguments; a reload that changes only ParamsMaxCapacity (family F8)",
     "C06": "requests naming batch 3 / batch 0; attachment-only requests; an exit with a failing exit handler; concurrency rules whose ControlBehavior says Throttling; two concurrency rules sharing one ParamIndex",
     "C07": "an average-RT rule with trigger 70000 and a 90 s tick; an exit after a traced error",
     "C08": "0 ms response times; a start time half a bucket before bucket number 2^32",
@@ -246,12 +246,12 @@ ADDED = {
     "C10": "thresholds 1.5 / 2.5; batch 0; a reload toggling only the queueing limit; memory-adaptive thresholds; a second throttling rule on the resource",
     "C11": "fractional thresholds 3.5 / 5.5 / 11.5; statistic intervals 500 / 2000 ms; an idle period of 2^32 ms + 704; 2- and 4-token requests on the resource statistic and on a statistic of the rule's own (700 / 1200 ms)",
     "C12": "a full retry timeout split into 1 ms + (timeout - 1 ms) across two threads; at most 3 recorded violations per class, a frequent class no longer ends a scenario",
-    "C13": "content-identified rules incl. one-field variants (specific-item threshold, odd bucket count, cold factor); getter panics contained; outlier: a request per resource after every operation and node breakers compared with the rule in force",
+    "C13": "content-identified rules incl. one-field variants (specific-item threshold, odd bucket count, cold factor); getter panics contained; outlier: a request per resource after every operation and node breakers compared with the rule in force; flow probe with two requests at one instant; memory-adaptive throttling rule in the flow catalogue",
     "C14": "breaker rule with a bucket count that does not divide the interval; memory-adaptive throttling subject; keeps-statistics check for both ratio strategies; error-ratio breaker subject",
     "C15": "two hotspot values, hotspot-concurrency module, invalid-only reload writers; getters against a clock moving past the window; non-termination verdict",
     "C16": "exit handler returning an error; half of the chains with the clock at 0; order values 0 and 2^32-1; a bare NewTokenResult(Blocked)",
     "C17": "resource names ' A' / 'A<TAB>'; application name with two dots; a second application's file in the directory; live-searcher pass (snapshot after write k, touch query, directory advanced, every query); writer created 500 / 999 ms into its first second",
-    "C18": "blank payloads; golden wire texts with integers beyond 2^32 / 2^40; a file of 1.1 MiB; converters / updaters that panic with non-error values; rules identified by id + content hash, payloads differing in one inconspicuous field; two handlers on the file datasource",
+    "C18": "blank payloads; golden wire texts with integers beyond 2^32 / 2^40; a file of 1.1 MiB; converters / updaters that panic with non-error values; rules identified by id + content hash, payloads differing in one inconspicuous field; two handlers on the file datasource; every undecodable payload delivered twice in a row",
     "C19": "x typed client-error handler, x already-cancelled context (RPC-style entry points), x block errors without a triggered rule, fallbacks answering nil or an error (the caller must get exactly that)",
     "C20": "state key includes the in-force percentage; known float-rounding signature limited to 'one node too many where the float64 product rounds up'; per-resource reload; one-recovery-attempt configurations to depth 7; Engine A recycle-timer scenario",
 }
